@@ -581,4 +581,284 @@ theorem ring_end_to_end (c : Circuit) (nodes : Array CNode) (s : Sig) (m readNod
       simp [evalNode]
     | _ => simp [hn] at hread
 
+/-! ## set/reset latches (C05): set priority, value 1 -/
+
+theorem negate_spec (op : CmpOp) (a b : I32) : cmp op.negate a b = !cmp op a b := by
+  cases op <;> simp [CmpOp.negate, cmp, bne]
+
+theorem fbRow_sound (x : Ctx) (e : Nat) (ty : Sig) (cd : Cond) (hue : cd.usesEach = false)
+    (h : fbRow x.c e ty cd = true) :
+    cd.eval (x.c.readR x.E e) (x.c.readG x.E e) none = cmp .gt (get (x.E e) ty) 0 := by
+  unfold fbRow at h
+  simp only [Bool.and_eq_true, beq_iff_eq] at h
+  obtain ⟨⟨hop, h0⟩, hf⟩ := h
+  cases hfst : cd.first with
+  | const k => rw [hfst] at hf; simp at hf
+  | ref rf sel =>
+    rw [hfst] at hf
+    cases rf with
+    | sig t =>
+      simp only [Bool.and_eq_true, beq_iff_eq] at hf
+      obtain ⟨ht, hrd⟩ := hf
+      subst ht
+      have hpl : cd.first.isPlain = true := by rw [hfst]; rfl
+      rw [cond_eval_plain cd _ _ hpl hue, hop, isConst0_spec _ h0, hfst]
+      simp only [Operand.val]
+      rw [readsSum_sound x.c x.E x.emits e sel t [e] hrd, get_sumOuts_single]
+    | _ => simp at hf
+
+theorem mulOne_val (x : Ctx) (a : Arg) : (mulOne a).val x.av = x.av a := by
+  simp [mulOne, VExpr.val, alu, Ctx.av, argVal]
+
+theorem flagRow_sound (x : Ctx) (hall : ∀ m, m < x.nodes.size → Holds x.E x.nodes x.env x.bind m)
+    (e : Nat) (cd : Cond) (a : Arg) (pos : Bool) (ha : argBelow x.nodes.size a = true)
+    (h : flagRow x.c x.nodes x.bind e cd a pos = true) :
+    cd.eval (x.c.readR x.E e) (x.c.readG x.E e) none = ((x.av a != 0) == pos) := by
+  unfold flagRow at h
+  simp only [Bool.and_eq_true, Bool.not_eq_true', beq_iff_eq, Bool.or_eq_true] at h
+  obtain ⟨⟨⟨⟨hbool, hue⟩, h0⟩, hop⟩, hfirst⟩ := h
+  have hval : cd.first.isPlain = true ∧ cd.first.val (x.c.readR x.E e) (x.c.readG x.E e) = x.av a := by
+    rcases hfirst with hf | hf
+    · exact operandIsArg_sound x hall e cd.first a ha hf
+    · refine ⟨opIs_plain _ _ _ _ _ _ _ hf, ?_⟩
+      have hu : (mulOne a).under x.nodes.size = true := by
+        simp only [mulOne, VExpr.under, ha, Bool.true_and]
+        rfl
+      rw [opIs_sound x x.nodes.size hall _ (mulOne a) e cd.first
+        (fun p t hp => entIs_sound x x.nodes.size hall (mulOne a) p t hu hp) hu hf, mulOne_val]
+  rw [cond_eval_plain cd _ _ hval.1 hue, hval.2, isConst0_spec _ h0, hop]
+  have hb := bool_argVal x.nodes x.env a hbool
+  have hb' : x.av a = 0 ∨ x.av a = 1 := hb
+  simp only [Operand.val]
+  cases pos <;> rcases hb' with h | h <;> rw [h] <;> decide
+
+theorem cmpRow_sound (x : Ctx) (hall : ∀ m, m < x.nodes.size → Holds x.E x.nodes x.env x.bind m)
+    (e : Nat) (cd : Cond) (a : Arg) (pos : Bool) (ha : argBelow x.nodes.size a = true)
+    (h : cmpRow x.c x.nodes x.bind e cd a pos = true) :
+    cd.eval (x.c.readR x.E e) (x.c.readG x.E e) none = ((x.av a != 0) == pos) := by
+  unfold cmpRow at h
+  cases a with
+  | int k => simp at h
+  | node m =>
+    have hm : m < x.nodes.size := by simpa [argBelow] using ha
+    have hnd : x.nodes[m]? = some x.nodes[m] := Array.getElem?_eq_getElem hm
+    simp only [hnd] at h
+    have hallm : ∀ j, j < m → Holds x.E x.nodes x.env x.bind j := fun j hj => hall j (by omega)
+    cases hk : x.nodes[m] with
+    | cmp op p q ty =>
+      rw [hk] at h
+      simp only [Bool.and_eq_true, Bool.not_eq_true', beq_iff_eq] at h
+      obtain ⟨⟨⟨⟨⟨⟨hp, hq⟩, hop⟩, hpl⟩, hue⟩, h1⟩, h2⟩ := h
+      rw [cond_eval_plain cd _ _ hpl hue, matchOperand_sound x e cd.first p m hp hallm h1,
+        matchOperand_sound x e cd.second q m hq hallm h2, hop]
+      have hv : x.av (.node m) = boolI (cmp op (x.av p) (x.av q)) := nodeVal_cmp x.nodes x.env m hm op p q ty hk hp hq
+      rw [hv, boolI_ne_zero]
+      cases pos
+      · simp [negate_spec]
+      · simp
+    | _ => rw [hk] at h; simp at h
+
+theorem rowIs_sound (x : Ctx) (hall : ∀ m, m < x.nodes.size → Holds x.E x.nodes x.env x.bind m)
+    (e : Nat) (cd : Cond) (a : Arg) (pos : Bool) (ha : argBelow x.nodes.size a = true)
+    (h : rowIs x.c x.nodes x.bind e cd a pos = true) :
+    cd.eval (x.c.readR x.E e) (x.c.readG x.E e) none = ((x.av a != 0) == pos) := by
+  unfold rowIs at h
+  simp only [Bool.or_eq_true] at h
+  rcases h with h | h
+  · exact flagRow_sound x hall e cd a pos ha h
+  · exact cmpRow_sound x hall e cd a pos ha h
+
+theorem rowIs_noEach (c' : Circuit) (nodes : Array CNode) (bind : Nat → Option Bind) (e : Nat) (cd : Cond) (a : Arg) (pos : Bool)
+    (h : rowIs c' nodes bind e cd a pos = true) : cd.usesEach = false := by
+  unfold rowIs flagRow cmpRow at h
+  simp only [Bool.or_eq_true, Bool.and_eq_true, Bool.not_eq_true'] at h
+  rcases h with h | h
+  · exact h.1.1.1.2
+  · cases a with
+    | int k => simp at h
+    | node m =>
+      simp only at h
+      cases hn : nodes[m]? with
+      | none => simp [hn] at h
+      | some nd =>
+        cases nd with
+        | cmp op p q ty =>
+          simp only [hn, Bool.and_eq_true, Bool.not_eq_true'] at h
+          exact h.1.1.2
+        | _ => simp [hn] at h
+
+/-- the one-tick law of a matched latch, in a context over the cut circuit -/
+theorem latch_step_cut (c : Circuit) (L : List Nat) (x : Ctx) (hc : x.c = c.cut L)
+    (hall : ∀ m, m < x.nodes.size → Holds x.E x.nodes x.env x.bind m)
+    (inp : Inputs) (hinp : InputsOK c inp)
+    (e : Nat) (ty : Sig) (s r : Arg)
+    (h : latchIs c x.c x.nodes x.bind e ty s r = true) :
+    get (c.evalEnt inp x.E e) ty =
+      boolI (latchNextB true (cmp .gt (get (x.E e) ty) 0) (x.av s != 0) (x.av r != 0)) := by
+  have hr : ∀ i, c.readR x.E i = x.c.readR x.E i := by intro i; rw [hc]; rfl
+  have hg : ∀ i, c.readG x.E i = x.c.readG x.E i := by intro i; rw [hc]; rfl
+  unfold latchIs at h
+  simp only [Bool.and_eq_true] at h
+  obtain ⟨⟨hs, hrb⟩, h⟩ := h
+  cases hk : c.kind e with
+  | decider cfg =>
+    rw [hk] at h
+    simp only [Bool.and_eq_true] at h
+    obtain ⟨hout, hrows⟩ := h
+    obtain ⟨o, hos, ho⟩ := outs_shape cfg.outs _ hout
+    obtain ⟨hsig, hcopy, hone⟩ := isConstOneOut_spec o ty ho
+    have hno : inp e = none := by
+      cases hi : inp e with
+      | none => rfl
+      | some m =>
+        rcases hinp e m hi with ⟨_, cd, hk'⟩ | ⟨t, lit, hk', _⟩
+        · rw [hk] at hk'; cases hk'
+        · rw [hk] at hk'; cases hk'
+    have e1 : c.evalEnt inp x.E e = evalDecider cfg (x.c.readR x.E e) (x.c.readG x.E e) := by
+      unfold Circuit.evalEnt; rw [hno, hk, hr, hg]
+    match hcs : cfg.conds, hrows with
+    | [c1, c2, c3], hrows =>
+      have hcfg : cfg = { conds := [c1, c2, c3], outs := [o] } := by cases cfg; simp_all
+      simp only [Bool.or_eq_true, Bool.and_eq_true, Bool.not_eq_true'] at hrows
+      rcases hrows with ⟨⟨⟨⟨⟨hfb, hu1⟩, hand2⟩, hr2⟩, hand3⟩, hr3⟩ | ⟨⟨⟨⟨⟨hr1, hand2⟩, hfb⟩, hu2⟩, hand3⟩, hr3⟩
+      · -- (feedback AND NOT r) OR s
+        have hu2 := rowIs_noEach _ _ _ _ _ _ _ hr2
+        have hu3 := rowIs_noEach _ _ _ _ _ _ _ hr3
+        have hany : List.any [c1, c2, c3] Cond.usesEach = false := by simp [hu1, hu2, hu3]
+        rw [e1, hcfg, get_evalDecider_out1 [c1, c2, c3] o ty hany hsig]
+        simp only [evalConds, evalConds.go, hand2, hand3, if_true, Bool.false_eq_true, if_false,
+          fbRow_sound x e ty c1 hu1 hfb, rowIs_sound x hall e c2 r false hrb hr2, rowIs_sound x hall e c3 s true hs hr3,
+          hcopy, hone]
+        generalize cmp CmpOp.gt (get (x.E e) ty) 0 = q
+        generalize (x.av s != 0) = sb
+        generalize (x.av r != 0) = rb
+        cases q <;> cases sb <;> cases rb <;> simp [latchNextB, boolI]
+      · -- s OR (feedback AND NOT r)
+        have hu1 := rowIs_noEach _ _ _ _ _ _ _ hr1
+        have hu3 := rowIs_noEach _ _ _ _ _ _ _ hr3
+        have hany : List.any [c1, c2, c3] Cond.usesEach = false := by simp [hu1, hu2, hu3]
+        rw [e1, hcfg, get_evalDecider_out1 [c1, c2, c3] o ty hany hsig]
+        simp only [evalConds, evalConds.go, hand2, hand3, if_true, Bool.false_eq_true, if_false,
+          fbRow_sound x e ty c2 hu2 hfb, rowIs_sound x hall e c1 s true hs hr1, rowIs_sound x hall e c3 r false hrb hr3,
+          hcopy, hone]
+        generalize cmp CmpOp.gt (get (x.E e) ty) 0 = q
+        generalize (x.av s != 0) = sb
+        generalize (x.av r != 0) = rb
+        cases q <;> cases sb <;> cases rb <;> simp [latchNextB, boolI]
+    | [], hrows => simp at hrows
+    | [_], hrows => simp at hrows
+    | [_, _], hrows => simp at hrows
+    | _ :: _ :: _ :: _ :: _, hrows => simp at hrows
+  | _ => rw [hk] at h; simp at h
+
+theorem latch_next_eq (nodes : Array CNode) (vals : Array SigMap) (s r : Arg) (cur : I32)
+    (hb : cur = 0 ∨ cur = 1) :
+    boolI (latchNextB true (cmp .gt cur 0) (argVal nodes vals s != 0) (argVal nodes vals r != 0)) =
+      (WriteRule.latch (.int 1) s r true).next nodes vals cur := by
+  unfold WriteRule.next latchNextB
+  have h1 : argVal nodes vals (.int 1) = 1 := rfl
+  simp only [h1]
+  have hq : cmp .gt cur 0 = (cur != 0) := by rcases hb with h | h <;> rw [h] <;> decide
+  rw [hq]
+  generalize (argVal nodes vals s != 0) = sb
+  generalize (argVal nodes vals r != 0) = rb
+  generalize (cur != 0) = q
+  cases q <;> cases sb <;> cases rb <;> simp [boolI]
+
+/-- a decider whose only output is the constant 1 on `ty` shows 0 or 1 there, whatever it reads -/
+theorem const_one_out_bool (cfg : DeciderCfg) (o : DOut) (ty : Sig) (hos : cfg.outs = [o]) (ho : isConstOneOut o ty = true)
+    (hany : cfg.conds.any Cond.usesEach = false) (r g : SigMap) :
+    get (evalDecider cfg r g) ty = 0 ∨ get (evalDecider cfg r g) ty = 1 := by
+  obtain ⟨hsig, hcopy, hone⟩ := isConstOneOut_spec o ty ho
+  have hcfg : cfg = { conds := cfg.conds, outs := [o] } := by cases cfg; simp_all
+  rw [hcfg, get_evalDecider_out1 cfg.conds o ty hany hsig]
+  by_cases h : evalConds cfg.conds r g none = true
+  · right; simp [h, hcopy, hone]
+  · left; simp [h]
+
+/-- **C05, per program, one tick (set priority, value 1).** As `gated_cell_end_to_end`, for a cell written with
+`write(1, set=s, reset=r)`; `hbool` holds in every state after the first tick (`const_one_out_bool`). -/
+theorem latch_cell_end_to_end (c : Circuit) (L : List Nat) (nodes : Array CNode) (bind : Nat → Option Bind)
+    (hL : cutOK c L = true) (hall : checkAll (c.cut L) nodes bind = true)
+    (inp : Inputs) (env : Env) (hinp : InputsOK c inp) (E : Nat → SigMap)
+    (hsettled : ∀ i, L.contains i = false → c.evalEnt inp E i = E i) (hgates : GatesOK c L E)
+    (hagree : InputsAgree nodes bind (cutInp inp L E) env)
+    (e : Nat) (ty : Sig) (s r : Arg)
+    (hcell : latchIs c (c.cut L) nodes bind e ty s r = true)
+    (hbool : get (E e) ty = 0 ∨ get (E e) ty = 1) :
+    get (c.evalEnt inp E e) ty = (WriteRule.latch (.int 1) s r true).next nodes (evalNodes nodes env) (get (E e) ty) := by
+  let x : Ctx := { c := c.cut L, inp := cutInp inp L E, E, nodes, env, bind,
+                   hfix := cut_fix c L inp E hsettled, hinp := cut_inputsOK c L inp E hinp hL hgates, hagree }
+  have hs := latch_step_cut c L x rfl (checkAll_sound x hall) inp hinp e ty s r hcell
+  rw [hs]
+  exact latch_next_eq nodes (evalNodes nodes env) s r (get (E e) ty) hbool
+
+/-- the multiplier behind a latch: one tick later it shows the latch state times `k`, in every state -/
+theorem mult_law (c : Circuit) (inp : Inputs) (hinp : InputsOK c inp) (E : Nat → SigMap) (hE : EmitsOK c E)
+    (e m : Nat) (ty : Sig) (k : I32) (h : multIs c e m ty k = true) :
+    get (c.evalEnt inp E m) ty = alu .mul (get (E e) ty) k := by
+  unfold multIs at h
+  cases hk : c.kind m with
+  | arith cfg =>
+    simp only [hk, Bool.and_eq_true, Bool.not_eq_true', beq_iff_eq] at h
+    obtain ⟨⟨⟨⟨⟨hop, hf⟩, hs⟩, hout⟩, hro⟩, hc⟩ := h
+    have hno : inp m = none := by
+      cases hi : inp m with
+      | none => rfl
+      | some mm =>
+        rcases hinp m mm hi with ⟨_, cd, hk'⟩ | ⟨t, lit, hk', _⟩
+        · rw [hk] at hk'; cases hk'
+        · rw [hk] at hk'; cases hk'
+    have e1 : c.evalEnt inp E m = evalArith cfg (c.readR E m) (c.readG E m) := by
+      unfold Circuit.evalEnt; rw [hno, hk]
+    have hsec : cfg.second.val (c.readR E m) (c.readG E m) = k := by
+      cases hcs : cfg.second with
+      | const k' => rw [hcs] at hc; simp at hc; simp [Operand.val, hc]
+      | ref _ _ => rw [hcs] at hc; simp at hc
+    rw [e1, get_evalArith_scalar cfg ty hf hs (outIs_spec _ _ hout), if_pos rfl,
+      ringOperand_sound c E hE m ty e cfg.first hro, hsec, hop]
+  | _ => rw [hk] at h; simp at h
+
+theorem latch_value_next_eq (nodes : Array CNode) (vals : Array SigMap) (s r : Arg) (k st : I32)
+    (hk : k ≠ 0) (hb : st = 0 ∨ st = 1) :
+    alu .mul (boolI (latchNextB true (cmp .gt st 0) (argVal nodes vals s != 0) (argVal nodes vals r != 0))) k =
+      (WriteRule.latch (.int k) s r true).next nodes vals (alu .mul st k) := by
+  unfold WriteRule.next latchNextB
+  have h1 : argVal nodes vals (.int k) = k := rfl
+  simp only [h1]
+  have hq : (alu .mul st k != 0) = cmp .gt st 0 := by
+    rcases hb with h | h
+    · subst h; simp [alu, cmp]
+    · subst h
+      have : alu .mul 1 k = k := by simp [alu]
+      rw [this]
+      have hk' : (k != 0) = true := by simpa using hk
+      rw [hk']; decide
+  rw [hq]
+  generalize (argVal nodes vals s != 0) = sb
+  generalize (argVal nodes vals r != 0) = rb
+  generalize cmp CmpOp.gt st 0 = q
+  cases q <;> cases sb <;> cases rb <;> simp [boolI, alu]
+
+/-- **C05, per program (set priority, constant value `k ≠ 0` through a multiplier).** In a state settled around the
+latch `e` and its multiplier `m`, with the multiplier showing the latch state times `k`: two ticks later the cell
+(the multiplier's output) holds what the source semantics says. -/
+theorem latch_value_end_to_end (c : Circuit) (L : List Nat) (nodes : Array CNode) (bind : Nat → Option Bind)
+    (hL : cutOK c L = true) (hall : checkAll (c.cut L) nodes bind = true)
+    (inp : Inputs) (env : Env) (hinp : InputsOK c inp) (E : Nat → SigMap)
+    (hsettled : ∀ i, L.contains i = false → c.evalEnt inp E i = E i) (hgates : GatesOK c L E)
+    (hagree : InputsAgree nodes bind (cutInp inp L E) env)
+    (e m : Nat) (ty : Sig) (s r : Arg) (k : I32) (hk : k ≠ 0)
+    (hcell : latchIs c (c.cut L) nodes bind e ty s r = true) (hmul : multIs c e m ty k = true)
+    (hbool : get (E e) ty = 0 ∨ get (E e) ty = 1)
+    (hmset : get (E m) ty = alu .mul (get (E e) ty) k) :
+    get (c.evalEnt inp (fun i => c.evalEnt inp E i) m) ty =
+      (WriteRule.latch (.int k) s r true).next nodes (evalNodes nodes env) (get (E m) ty) := by
+  let x : Ctx := { c := c.cut L, inp := cutInp inp L E, E, nodes, env, bind,
+                   hfix := cut_fix c L inp E hsettled, hinp := cut_inputsOK c L inp E hinp hL hgates, hagree }
+  have hs := latch_step_cut c L x rfl (checkAll_sound x hall) inp hinp e ty s r hcell
+  have hE1 : EmitsOK c (fun i => c.evalEnt inp E i) := fun p sg hp => emits_evalEnt c inp hinp E p sg hp
+  rw [mult_law c inp hinp _ hE1 e m ty k hmul, hs, hmset]
+  exact latch_value_next_eq nodes (evalNodes nodes env) s r k (get (E e) ty) hk hbool
+
 end Facto
